@@ -10,9 +10,44 @@ def S(ctx):
     return ctx.cache["sym"]
 
 
-def states(ctx, f, split=None, unroll=None, until=None):
+def _boolish(t):
+    if t is None or not isinstance(t, tuple) or not t:
+        return False
+    if t[0] == "cmp":
+        return True
+    if t[0] == "un" and t[1] == "not":
+        return True
+    if t[0] == "bool":
+        return all(_boolish(x) for x in t[2])
+    return False
+
+
+def fork_bool_return(ctx, p, st):
+    """`return a == b` is `if a == b: return True else: return False`: states of a return path whose value is a
+    comparison (or not / and / or of comparisons) are split on that value, so that decision tables see the two
+    outcomes whichever way the function spells them."""
+    eng = S(ctx)
+    if p.exit[0] != "return" or not _boolish(st.ret) or (st.ret[0] == "un" and not _boolish(st.ret[2])):
+        return [st]
+    out = []
+    node = p.exit[1].value if hasattr(p.exit[1], "value") else None
+    for pol in (True, False):
+        s2 = st.fork()
+        if eng.assume(st.ret, pol, s2.facts):
+            s2.log.append((st.ret, pol, node))
+            s2.ret = ("c", pol)
+            out.append(s2)
+    return out or [st]
+
+
+def states(ctx, f, split=None, unroll=None, until=None, fork_returns=False):
     """Yield (path, state) for every feasible state of every path of f.
     `until(ev)` truncates the path before the first event for which it is true."""
+    if fork_returns:
+        for p, st in states(ctx, f, split=split, unroll=unroll, until=until):
+            for s2 in fork_bool_return(ctx, p, st):
+                yield p, s2
+        return
     eng = S(ctx)
     from .walk import Path
     if unroll is None:
